@@ -126,6 +126,27 @@ func genC14(r *Rng, e *Emitter, n int) {
 					hx := cx + (float64(h)-0.5)*0.4*R
 					rings = append(rings, r.starRing(hx, cy, 0.03*R+2, 0.08*R+3, 4+r.Intn(5), r.chance(1, 2)))
 				}
+				if np == 1 && r.chance(1, 4) {
+					// (alone, so that the fan's base point is one of its own vertices and every intermediate
+					// product stays exact, as the property's domain requires)
+					// lattice sliver: a triangle of area 1/2 (or 1) stretched over the whole grid — positive
+					// area, however small compared with its perimeter
+					ux, uy, vx, vy := r.unimodular(5 + r.Intn(13))
+					if r.chance(1, 2) {
+						vx, vy = 2*vx+ux, 2*vy+uy // area 1
+					}
+					a := [2]float64{cx, cy}
+					b := [2]float64{cx + float64(ux), cy + float64(uy)}
+					c := [2]float64{cx + float64(ux+vx), cy + float64(uy+vy)}
+					tri := [][2]float64{a, b, c}
+					st := r.Intn(3)
+					tri = [][2]float64{tri[st], tri[(st+1)%3], tri[(st+2)%3]}
+					if r.chance(1, 2) {
+						tri[1], tri[2] = tri[2], tri[1]
+					}
+					rings = [][][2]float64{{tri[0], tri[1], tri[2], tri[0]}}
+					e.tally("sliver-polygon")
+				}
 				if r.chance(1, 12) { // zero-area polygon: falls back to the length-weighted centroid
 					a := [2]float64{cx, cy}
 					b := [2]float64{cx + 10, cy + 20}
